@@ -47,6 +47,7 @@ type hx struct {
 	makes   []hMake
 	unknown []string
 	fn      string
+	prefix  string
 	fdecl   *ast.FuncDecl
 	guards  map[string]bool // variables currently known to be <= buf.Len()
 }
@@ -147,7 +148,7 @@ func (h *hx) node(obj gotypes.Object) string {
 		return "?"
 	}
 	if obj.Parent() == h.pkg.Scope() {
-		return "pkg." + obj.Name()
+		return "pkg." + h.prefix + obj.Name()
 	}
 	return fmt.Sprintf("%s.%s_%d", h.fn, obj.Name(), fset.Position(obj.Pos()).Line)
 }
@@ -169,6 +170,15 @@ func calleeName(h *hx, fun ast.Expr) (string, *gotypes.Func) {
 	case *ast.Ident:
 		if f, ok := h.info.ObjectOf(x).(*gotypes.Func); ok {
 			return x.Name, f
+		}
+	case *ast.SelectorExpr:
+		// a function of another package: codec.ReadString[...]
+		if id, ok := x.X.(*ast.Ident); ok {
+			if _, isPkg := h.info.ObjectOf(id).(*gotypes.PkgName); isPkg {
+				if f, ok := h.info.ObjectOf(x.Sel).(*gotypes.Func); ok {
+					return x.Sel.Name, f
+				}
+			}
 		}
 	case *ast.IndexExpr:
 		return calleeName(h, x.X)
@@ -337,7 +347,10 @@ func (h *hx) call(c *ast.CallExpr) []string {
 		}
 	}
 	// functions of this package (possibly instantiated generics)
-	if name, f := calleeName(h, c.Fun); f != nil && f.Pkg() == h.pkg {
+	if name, f := calleeName(h, c.Fun); f != nil && f.Pkg() != nil && (f.Pkg() == h.pkg || f.Pkg().Name() == "codec") {
+		if f.Pkg() == h.pkg {
+			name = h.prefix + name
+		}
 		sig := f.Type().(*gotypes.Signature)
 		for i, a := range c.Args {
 			r := h.refs(a)
@@ -392,6 +405,15 @@ func (h *hx) call(c *ast.CallExpr) []string {
 		}
 		if sel.Sel.Name == "Encode" && len(c.Args) == 1 && isBufferType(h.typeOf(c.Args[0])) {
 			h.refs(sel.X)
+			return nil
+		}
+		if sel.Sel.Name == "Calc" && len(c.Args) == 1 && isBufferType(h.typeOf(c.Args[0])) && refFree(h.typeOf(c)) {
+			// a checksum service reads the bytes it is given and returns a number (C14's correspondence checks that
+			// it leaves the buffer alone)
+			h.refs(c.Args[0])
+			return nil
+		}
+		if sel.Sel.Name == "Algorithm" && len(c.Args) == 0 {
 			return nil
 		}
 		if b, ok := recvT.(*gotypes.Named); ok && (b.String() == "encoding/binary.bigEndian" || b.String() == "encoding/binary.littleEndian") {
@@ -519,6 +541,9 @@ func (h *hx) assign(lhs []ast.Expr, rhs []ast.Expr, n ast.Node) {
 			if rexpr != nil {
 				ast.Inspect(rexpr, func(m ast.Node) bool {
 					if u, ok := m.(*ast.UnaryExpr); ok && u.Op == token.AND {
+						if _, lit := u.X.(*ast.CompositeLit); lit {
+							return true // &T{...}: a fresh object, nothing else can reach it
+						}
 						for _, s := range h.lhsRoots(u.X) {
 							if s != d {
 								h.edges = append(h.edges, hEdge{s, []string{d}, "address taken"})
@@ -699,8 +724,9 @@ func endsInReturn(b *ast.BlockStmt) bool {
 	return ok
 }
 
-func writeHelpers(root, path string) {
-	dir := filepath.Join(root, "codec")
+// analyse one package directory; nodes of a messages package are prefixed with its short name
+func analyzeDir(root, rel, prefix string, acc *hx, readers, writerParams, decodeRecv *[]string) {
+	dir := filepath.Join(root, rel)
 	ents, err := os.ReadDir(dir)
 	if err != nil {
 		panic(err)
@@ -719,30 +745,29 @@ func writeHelpers(root, path string) {
 	info := &gotypes.Info{Types: map[ast.Expr]gotypes.TypeAndValue{}, Uses: map[*ast.Ident]gotypes.Object{}, Defs: map[*ast.Ident]gotypes.Object{},
 		Implicits: map[ast.Node]gotypes.Object{}, Selections: map[*ast.SelectorExpr]*gotypes.Selection{}}
 	cwd, _ := os.Getwd()
-	os.Chdir(dir) // module resolution of golang.org/x/exp/constraints by the source importer
+	os.Chdir(dir) // module resolution (golang.org/x/exp/constraints, the codec package) by the source importer
 	var terrs []string
 	conf := gotypes.Config{Importer: importer.ForCompiler(fset, "source", nil), Error: func(err error) { terrs = append(terrs, err.Error()) }}
-	pkg, _ := conf.Check("codec", fset, files, info)
+	pkg, _ := conf.Check(rel, fset, files, info)
 	os.Chdir(cwd)
 	if len(terrs) > 0 {
-		panic(terr{token.NoPos, "helpers: type errors in codec/: " + strings.Join(terrs, "; ")})
+		panic(terr{token.NoPos, "helpers: type errors in " + rel + ": " + strings.Join(terrs, "; ")})
 	}
-	h := &hx{info: info, pkg: pkg}
-	var readers, writerParams []string
+	acc.info, acc.pkg, acc.prefix = info, pkg, prefix
 	for _, f := range files {
 		for _, d := range f.Decls {
 			fd, ok := d.(*ast.FuncDecl)
 			if !ok || fd.Body == nil {
 				continue
 			}
-			h.fn = fd.Name.Name
+			acc.fn = prefix + fd.Name.Name
 			if fd.Recv != nil {
 				_, rt, _ := recvOf(fd)
-				h.fn = rt + "." + fd.Name.Name
+				acc.fn = prefix + rt + "." + fd.Name.Name
 			}
-			h.fdecl = fd
-			h.guards = map[string]bool{}
-			h.stmt(fd.Body)
+			acc.fdecl = fd
+			acc.guards = map[string]bool{}
+			acc.stmt(fd.Body)
 			sig := info.Defs[fd.Name].Type().(*gotypes.Signature)
 			hasBuf := false
 			for i := 0; i < sig.Params().Len(); i++ {
@@ -751,47 +776,94 @@ func writeHelpers(root, path string) {
 				}
 			}
 			if fd.Recv == nil && hasBuf && !refFree(sig.Results()) {
-				readers = append(readers, h.fn)
+				*readers = append(*readers, acc.fn)
 			}
 			if fd.Recv == nil && hasBuf && refFree(sig.Results()) {
 				for i := 0; i < sig.Params().Len(); i++ {
 					if p := sig.Params().At(i); !isBufferType(p.Type()) && !refFree(p.Type()) {
-						writerParams = append(writerParams, h.node(p))
+						*writerParams = append(*writerParams, acc.node(p))
 					}
+				}
+			}
+			// a message: its Decode fills the receiver, its Encode reads it
+			if fd.Recv != nil && hasBuf && len(fd.Recv.List) == 1 && len(fd.Recv.List[0].Names) == 1 {
+				rv := acc.node(info.Defs[fd.Recv.List[0].Names[0]])
+				switch fd.Name.Name {
+				case "Decode":
+					*decodeRecv = append(*decodeRecv, rv)
+				case "Encode":
+					*writerParams = append(*writerParams, rv)
 				}
 			}
 		}
 	}
-	sort.Strings(readers)
-	// what a message's Decode stores: results of the library readers
-	var rsrc []string
-	for _, r := range readers {
-		rsrc = append(rsrc, r+".ret")
+}
+
+func writeHelpers(root, path string) {
+	h := &hx{}
+	var readers, writerParams, decodeRecv []string
+	analyzeDir(root, "codec", "", h, &readers, &writerParams, &decodeRecv)
+	for _, d := range [][2]string{{"sse-bin/messages", "sse:"}, {"szse-bin/messages", "szse:"}, {"bjse-trade-bin/messages", "bjse:"},
+		{"risk-bin/messages", "risk:"}, {"sample-bin/messages", "sample:"}} {
+		analyzeDir(root, d[0], d[1], h, &readers, &writerParams, &decodeRecv)
 	}
-	h.edges = append(h.edges, hEdge{"MSG", rsrc, "message Decode bodies store library results (IR grammar)"})
+	sort.Strings(readers)
+	// what a decoded message holds: whatever the Decode methods put into their receivers (and, through an interface or
+	// element Decode call in the library, into nested messages)
+	h.edges = append(h.edges, hEdge{"MSG", decodeRecv, "receivers of the messages' Decode methods"})
 
 	var sb strings.Builder
-	sb.WriteString("(* GENERATED by /verif/translator (helpers.go) from /repo/codec/*.go on every run — do not edit, not committed. *)\n")
-	sb.WriteString("From Coq Require Import List Strings.String.\nImport ListNotations.\nFrom FP.Model Require Import Alias.\nLocal Open Scope string_scope.\n\n")
+	sb.WriteString("(* GENERATED by /verif/translator (helpers.go) from /repo/codec/*.go and the five messages packages on every run — do not edit, not committed. *)\n")
+	sb.WriteString("From Coq Require Import List NArith Strings.String.\nImport ListNotations.\nFrom FP.Model Require Import Alias.\nLocal Open Scope N_scope.\n\n")
+	// nodes are numbered in order of first appearance (the names are kept in comments and in node_names)
+	ids := map[string]int{}
+	var names []string
+	id := func(n string) int {
+		if v, ok := ids[n]; ok {
+			return v
+		}
+		ids[n] = len(names) + 1
+		names = append(names, n)
+		return ids[n]
+	}
+	id("MSG")
+	id("BUFMEM")
+	sb.WriteString("Definition id_MSG : node := 1.     (* what a decoded message holds *)\nDefinition id_BUFMEM : node := 2.  (* the buffer's own backing array *)\n\n")
 	sb.WriteString("Definition flow : list edge := [\n")
 	for i, e := range h.edges {
-		var ss []string
+		var ss, sn []string
 		for _, s := range e.srcs {
 			if s == "BUF" {
 				ss = append(ss, "SBuf")
+				sn = append(sn, "BUF")
 			} else {
-				ss = append(ss, "SVar "+coqString(s))
+				ss = append(ss, fmt.Sprintf("SVar %d", id(s)))
+				sn = append(sn, s)
 			}
 		}
 		sep := ";"
 		if i == len(h.edges)-1 {
 			sep = ""
 		}
-		fmt.Fprintf(&sb, "  (%s, [%s])%s  (* %s *)\n", coqString(e.dst), strings.Join(ss, "; "), sep, e.why)
+		fmt.Fprintf(&sb, "  (%d, [%s])%s  (* %s <- %s : %s *)\n", id(e.dst), strings.Join(ss, "; "), sep, e.dst, strings.Join(sn, ", "), e.why)
 	}
 	sb.WriteString("].\n\n")
-	fmt.Fprintf(&sb, "Definition readers : list string := %s.\n\n", coqStrList(readers))
-	fmt.Fprintf(&sb, "Definition writer_params : list string := %s.\n\n", coqStrList(writerParams))
+	nlist := func(l []string) string {
+		var p []string
+		for _, s := range l {
+			p = append(p, fmt.Sprint(id(s)))
+		}
+		return "[" + strings.Join(p, "; ") + "]"
+	}
+	var rets []string
+	for _, r := range readers {
+		rets = append(rets, r+".ret")
+	}
+	fmt.Fprintf(&sb, "(* results of the library readers: %s *)\nDefinition reader_rets : list node := %s.\n\n", strings.Join(readers, " "), nlist(rets))
+	fmt.Fprintf(&sb, "(* receivers of the %d Decode methods *)\nDefinition decode_receivers : list node := %s.\n\n", len(decodeRecv), nlist(decodeRecv))
+	fmt.Fprintf(&sb, "(* value parameters of the library writers and receivers of the Encode methods *)\nDefinition writer_params : list node := %s.\n\n", nlist(writerParams))
+	fmt.Fprintf(&sb, "Definition node_count : N := %d.\n\n", len(names))
+	sb.WriteString("Local Open Scope string_scope.\n")
 	sb.WriteString("Definition makes : list (string * string * list string) := [\n")
 	for i, m := range h.makes {
 		sep := ";"
